@@ -175,6 +175,8 @@ pub struct Resource {
     pub static_sampler: bool,
     pub bindless: bool,
     pub group: Option<u32>,
+    /// the array type is introduced by a typedef: `typedef T TD[n]; TD name;`
+    pub via_typedef: bool,
 }
 
 #[derive(Clone, Debug)]
@@ -1869,6 +1871,8 @@ impl<'a> Gen<'a> {
                 }
             }
             let idx = self.prog.resources.len();
+            // (a register() suffix is rejected on a typedef'd array type - the front end's own restriction)
+            let via_typedef = array.is_some() && suffix.is_empty() && self.pick(4) == 0;
             self.prog.resources.push(Resource {
                 name,
                 ty_text,
@@ -1880,6 +1884,7 @@ impl<'a> Gen<'a> {
                 static_sampler: kind == "StaticSampler",
                 bindless: false,
                 group,
+                via_typedef,
             });
             self.prog.items.push(Item::Resource(idx));
         }
@@ -2052,7 +2057,15 @@ impl<'a> Gen<'a> {
             reachable.dedup();
             let idx = self.prog.pipelines.len();
             self.prog.pipelines.push(Pipeline { name: pname, stages: stages.clone(), default_group, extra: String::new() });
-            self.prog.items.push(Item::Pipeline(idx));
+            // a pipeline may be declared inside a namespace: it is still requested by its plain name
+            if self.prof.namespaces && self.pick(4) == 0 {
+                let ns = self.fresh("PNS");
+                self.prog.items.push(Item::NamespaceBegin(ns));
+                self.prog.items.push(Item::Pipeline(idx));
+                self.prog.items.push(Item::NamespaceEnd);
+            } else {
+                self.prog.items.push(Item::Pipeline(idx));
+            }
             self.prog.scene.pipelines.push(ScenePipeline { name: pname, kind, stages, numthreads, reachable, default_group });
         }
     }
@@ -2516,7 +2529,17 @@ impl Renderer<'_> {
                         out.push_str("}\n");
                     } else {
                         let arr = r.array.map(|n| format!("[{}]", n)).unwrap_or_default();
-                        let _ = write!(out, "{} {}{}{}", r.ty_text, self.n(r.name), arr, r.suffix);
+                        if r.via_typedef && r.array.is_some() && !r.bindless {
+                            // the same declaration through an array typedef (the prefix attributes stay on the variable)
+                            let pre_len = out.len() - r.prefix.len();
+                            let attrs = out.split_off(pre_len);
+                            let _ = writeln!(out, "typedef {} TD_{}{};", r.ty_text, self.n(r.name), arr);
+                            Self::ind(&mut out, lvl);
+                            out.push_str(&attrs);
+                            let _ = write!(out, "TD_{} {}{}", self.n(r.name), self.n(r.name), r.suffix);
+                        } else {
+                            let _ = write!(out, "{} {}{}{}", r.ty_text, self.n(r.name), arr, r.suffix);
+                        }
                         if r.static_sampler {
                             out.push_str(" = StaticSampler { Filter = MIN_MAG_MIP_LINEAR; }");
                         }
